@@ -185,6 +185,8 @@ def judge_e2e_case(lines):
         for k, v in environ.items():
             if k not in RESERVED_DOC and rt.get(k) != v:
                 bad.append(("unshadowed-altered", k, f"variable {q(k)}={q(v)} of the emulator's environment reaches the runtime as {q(rt[k]) if k in rt else '<unset>'}"))
+        if harg and not environ.get(b"AWS_LAMBDA_FUNCTION_HANDLER") and not environ.get(HANDLER) and rt.get(HANDLER) != harg:
+            bad.append(("reserved-overridden", HANDLER, f"the handler {q(harg)} given on the command line reaches the runtime as {q(HANDLER)}={q(rt[HANDLER]) if HANDLER in rt else '<unset>'}"))
         if w[3] == "1":
             uri = b"http://" + unhx(w[4]) + b":" + w[5].encode() + b"/2021-04-23/credentials"
             if rt.get(CACHING_URI) != uri:
@@ -417,6 +419,11 @@ def judge_all(ctx, model, results):
                 continue
             report(ctx, model, trace, cid, None, complaints)
             reported += 1
+        if not mism and not bad_cases and trace.startswith(ctx.work):
+            try:
+                os.remove(trace)   # clean traces are large (hundreds of MB per thorough run)
+            except OSError:
+                pass
 
 
 def build_rie(ctx):
@@ -494,8 +501,6 @@ def replay(ctx, path):
     if not m or not mm or not ctx.build_go(DRV):
         print("nothing to replay"); return 2
     model = mm.group(1)
-    if model == "enve2e":
-        print("end-to-end cases are re-run with: .build/envdrv e2e -replay <file>");
     p = os.path.join(ctx.work, "replay.in"); o = os.path.join(ctx.work, "replay.out")
     open(p, "w").write(m.group(0))
     C.run([os.path.join(C.BUILD, DRV), SUB[model], "-replay", p, "-out", o], env=drv_env())
